@@ -334,6 +334,7 @@ def _run_chunk(check, verif_seed, tier, indices, slot, progress):
             struct.pack_into('<q', progress, slot * 8, idx)
             try:
                 out = check.execute(case)
+                int(out.digest or '0', 16)      # flushes an error indicator a finalizer may have left behind
             except HarnessError as e:
                 out = Outcome().harness('HarnessError: %s' % (e,))
             except Exception:
